@@ -25,12 +25,33 @@ CTL_TRUST = [
     "tokio/futures scheduling is outside the model: an event is 'the select! loop takes this completion / abort signal'",
 ]
 
+OPS_TRUST = [
+    "the acceptors mutAcc / crossAcc (Mutation.lean, Crossover.lean) are specifications of what the operators may produce, written by hand; the real mutation::mutate and Crossover::crossover are checked to refine them by correspondence K-ops (operation sequences on one shared PathContext, parameter corners 0 / (0,1) / 1, 1..8 parents)",
+    "rand / rand_distr are outside the model: only the class of each probability (0, in between, 1) and 'a sample is some f64' are assumed; rescaling factors are the constant 1.0 outside cfg(test) (source lint L3)",
+]
+
 CODEC_TRUST = [
     "model L1/L2 (Spec.lean, Json.lean) is hand-written; tied to value.rs/value_util.rs by correspondence K-codec (round trips, both map encodings, single-defect corruptions of values and of JSON, arbitrary JSON)",
     "serde_json text <-> tree is outside the model (the model starts at the serde_json::Value tree); float law FL-cast (i64 -> f64 is total and finite)",
 ]
 
 PROPS = {
+    "C12": {
+        "modules": ["CambrianModel.Props.C12"],
+        "theorems": ["Cambrian.Props.C12_prov", "Cambrian.Props.C12_single", "Cambrian.Props.C12_same"],
+        "correspondences": ["ops"],
+        "trusted": OPS_TRUST,
+        "assumptions": ["float laws used: none", "parents conform to a well-formed spec"],
+    },
+    "C13": {
+        "modules": ["CambrianModel.Props.C13"],
+        "theorems": ["Cambrian.Props.C13_id", "Cambrian.Props.C13_step", "Cambrian.Props.C13_init_variant",
+                     "Cambrian.Props.C13_init_optional"],
+        "correspondences": ["ops"],
+        "trusted": OPS_TRUST,
+        "assumptions": ["float laws used: none", "the input conforms to a well-formed spec",
+                        "key freshness is the local fact 'not a key of the input map' (after fix aa67b39 the key manager registers the map's keys before allocating)"],
+    },
     "C11": {
         "modules": ["CambrianModel.Props.C11"],
         "theorems": ["Cambrian.Props.C11_reject", "Cambrian.Props.C11_rt_json", "Cambrian.Props.C11_rt_value",
